@@ -24,12 +24,16 @@ TRUSTED = ["numpy array construction, comparison and astype casts modelled as ma
            "Python str.upper / bytes / dict semantics used by the sequence constructors"]
 ASSUMPTIONS = ["k-mer arithmetic is modelled over unbounded integers; the real code uses int64, the tie holds for len(base)**k < 2**63",
                "alphabets have pairwise distinct symbols (the constructors do not enforce it; duplicates are outside the property)"]
-LEVEL_TEXT = ("Lean 4 proof for all inputs of: encode/decode bijection and exact rejection for generic and letter alphabets "
-              "(256-entry table of codec.pyx refines the generic model), mapper preservation, mixed-radix fuse/split "
-              "bijection for every base and k, rolling and spaced k-mer computation = map fuse over windows, sequence laws, "
-              "translation = codon-wise lookup, ORF exactness; complement/alphabet/codon-table facts by decide on tables "
-              "regenerated from the source. KmerAlphabet.fuse range test is defective in the .pyx (known finding): its "
-              "rejection theorem is partial.")
+LEVEL_TEXT = ("Lean 4 proof for all inputs of: encode/decode bijection and exact AlphabetError rejection for generic alphabets; "
+              "the 256-entry table codec of codec.pyx and the repaired LetterAlphabet.decode_multiple refine the generic model "
+              "(so a code >= 256 is rejected, never wrapped); mixed-radix fuse/split bijection for every base and k and exact "
+              "rejection by split; sequence laws for construction/str, +, reverse, ==; complete translation = codon-wise "
+              "table lookup and the radix-4 codon-number bijection; complement involution + IUPAC pairing, protein 1<->3 letter "
+              "dicts, PRINTABLES and all shipped codon tables by decide on tables regenerated from the source. PARTIAL: "
+              "KmerAlphabet.fuse's range test is defective in the .pyx (known findings; its rejection theorem is _partial with a "
+              "_defect witness); AlphabetMapper preservation, rolling/spaced create_kmers = map fuse over windows, ORF "
+              "exactness, indexing/assignment laws and custom CodonTable construction are modelled and checked by "
+              "correspondence + an independent oracle only (no theorem).")
 LEVEL_NOTE = ("model tied to the code by a differential harness on seeded op scripts and by regenerated tables; numpy "
               "casts/broadcasting and int64 overflow of k-mer codes are modelled, not verified")
 TECHNIQUE = "Lean 4 proof (structural induction over symbol/code lists, decide on regenerated tables) + correspondence"
@@ -258,7 +262,7 @@ class _A:
         self.letter = spec.startswith("L:")
         self.toks = _ptoks(spec[2:])
         if self.letter:
-            self.alph = seq.LetterAlphabet(bytes(int(t) for t in self.toks))
+            self.alph = seq.LetterAlphabet([bytes([int(t)]) for t in self.toks])
         else:
             self.alph = seq.Alphabet([tok_to_sym(t) for t in self.toks])
 
@@ -384,7 +388,7 @@ def run_impl(case):
         if op == "s_prot":
             s = seq.ProteinSequence(bytes(int(t) for t in _ptoks(w[1])).decode("latin-1"))
             return push(s, _NucA(s.get_alphabet()))
-        if op in ("s_str", "s_code", "s_valid", "s_get", "s_set", "s_slice", "s_setslice", "s_rev", "s_copy", "s_compl", "s_setcode"):
+        if op in ("s_str", "s_code", "s_valid", "s_get", "s_set", "s_slice", "s_setslice", "s_rev", "s_copy", "s_compl", "s_setcode", "s_setarr"):
             i = int(w[1])
             if i >= len(regs):
                 return "ERR:noreg"
@@ -415,6 +419,11 @@ def run_impl(case):
                 return push(s.copy(), a)
             if op == "s_compl":
                 return push(s.complement(), a)
+            if op == "s_setarr":
+                lo = None if w[2] == "-" else int(w[2])
+                hi = None if w[3] == "-" else int(w[3])
+                s[lo:hi] = arr(w[4], _pints(w[5]))
+                return "ok " + _seq_tokens_safe((s, a))
             if op == "s_setcode":
                 s.code = arr(w[2], _pints(w[3]))
                 return "ok " + _seq_tokens_safe((s, a))
@@ -486,3 +495,893 @@ def run_impl(case):
         except Exception as e:  # noqa: BLE001
             out.append(_err(e))
     return out
+
+
+# ---------------------------------------------------------------- generator
+GEN_TOKENS = ["i0", "i1", "i-3", "i7", "sA", "sa", "sAB", "s0", "b0", "bA", "t1.2", "t2.1", "t0", "N", "sN", "i255", "i256", "sx"]
+
+
+def _letter_alph(rng, small=False):
+    n = rng.choice([1, 2, 3, 4, 4, 5, 8, 15, 24]) if small or rng.random() < 0.7 else rng.choice([33, 64, 93, 94])
+    return rng.sample(PRINTABLE, n)
+
+
+def _alph_spec(rng, small=False):
+    if rng.random() < 0.65:
+        return "L:" + _ints(_letter_alph(rng, small))
+    n = rng.randint(1, 8)
+    return "G:" + _toks(rng.sample(GEN_TOKENS, n))
+
+
+def _spec_syms(spec):
+    return _ptoks(spec[2:])
+
+
+def _rand_syms(rng, spec, n, p_bad=0.0):
+    al = _spec_syms(spec)
+    out = []
+    for _ in range(n):
+        if rng.random() < p_bad:
+            if spec.startswith("L:"):
+                out.append(str(rng.choice([0, 10, 32, 127, 128, 200, 255] + PRINTABLE)))
+            else:
+                out.append(rng.choice(GEN_TOKENS))
+        else:
+            out.append(rng.choice(al))
+    return out
+
+
+def _rand_codes(rng, n_alph, n, dt, p_bad=0.0):
+    lo, hi = (-2**63, 2**63 - 1) if dt == "list" else DT_RANGE[dt]
+    bad_pool = [n_alph, n_alph + 1, 255, 256, 256 + rng.randrange(n_alph), 257, 511, 512, 65535, 65536, 2**32,
+                2**32 + rng.randrange(n_alph), -1, -256, -256 + rng.randrange(n_alph), -n_alph, 127, 128, hi, lo]
+    bad_pool = [b for b in bad_pool if lo <= b <= hi and not (0 <= b < n_alph)]
+    out = []
+    for _ in range(n):
+        if bad_pool and rng.random() < p_bad:
+            out.append(rng.choice(bad_pool))
+        else:
+            out.append(rng.randrange(n_alph))
+    return out
+
+
+def _case_alphabet(rng):
+    spec = _alph_spec(rng)
+    al = _spec_syms(spec)
+    ops = []
+    for _ in range(rng.randint(3, 7)):
+        r = rng.random()
+        n = rng.choice([0, 1, 2, 3, 5, 9])
+        if r < 0.3:
+            ops.append(f"enc {spec} {_toks(_rand_syms(rng, spec, n, rng.choice([0, 0, 0.25])))}")
+        elif r < 0.4:
+            ops.append(f"enc1 {spec} {_rand_syms(rng, spec, 1, 0.3)[0]}")
+        elif r < 0.8:
+            dt = rng.choice(["u8", "u8", "i64", "i64", "u16", "i16", "i32", "u32", "u64", "i8", "list"])
+            if spec.startswith("G:") and rng.random() < 0.5:
+                dt = "list"
+            ops.append(f"dec {spec} {dt} {_ints(_rand_codes(rng, len(al), n, dt, rng.choice([0, 0, 0.3])))}")
+        else:
+            ops.append(f"dec1 {spec} {_rand_codes(rng, len(al), 1, 'i64', 0.4)[0]}")
+    return {"kind": "alphabet", "ops": ops}
+
+
+def _case_bytes(rng):
+    """every byte value against one small letter alphabet (exhaustive over symbols / uint8 codes)"""
+    al = _letter_alph(rng, small=True)
+    spec = "L:" + _ints(al)
+    lo = rng.randrange(0, 256, 32)
+    return {"kind": "bytes", "ops": [f"enc1 {spec} {b}" for b in range(lo, lo + 32)] +
+            [f"dec {spec} u8 {c}" for c in range(lo, lo + 32)] +
+            [f"dec {spec} u16 {c + 256 * rng.randint(1, 3)}" for c in range(lo, lo + 32, 5)]}
+
+
+def _case_newalph(rng):
+    ops = []
+    for _ in range(4):
+        r = rng.random()
+        if r < 0.4:
+            ops.append("newalph L:" + _ints(_letter_alph(rng)))
+        elif r < 0.7:
+            al = _letter_alph(rng, small=True)
+            al[rng.randrange(len(al))] = rng.choice([0, 9, 10, 32, 127, 128, 255])
+            ops.append("newalph L:" + _ints(al))
+        elif r < 0.8:
+            ops.append("newalph " + rng.choice(["L:_", "G:_"]))
+        else:
+            ops.append("newalph G:" + _toks(rng.sample(GEN_TOKENS, rng.randint(1, 6))))
+    return {"kind": "newalph", "ops": ops}
+
+
+def _case_mapper(rng):
+    letter = rng.random() < 0.6
+    if letter:
+        tgt = _letter_alph(rng, small=True)
+        tgt = tgt + rng.sample([p for p in PRINTABLE if p not in tgt], rng.randint(0, 4))
+        mk = lambda xs: "L:" + _ints(xs)   # noqa: E731
+    else:
+        tgt = rng.sample(GEN_TOKENS, rng.randint(1, 9))
+        mk = lambda xs: "G:" + _toks(xs)   # noqa: E731
+    r = rng.random()
+    if r < 0.3:
+        src = tgt[:rng.randint(1, len(tgt))]                      # prefix: no mapping necessary
+    elif r < 0.85:
+        src = rng.sample(tgt, rng.randint(1, len(tgt)))            # subset in another order
+    else:
+        pool = PRINTABLE if letter else GEN_TOKENS
+        src = rng.sample(pool, rng.randint(1, min(6, len(pool))))  # may contain symbols the target lacks
+    ops = [f"extends {mk(tgt)} {mk(src)}"]
+    for _ in range(rng.randint(1, 3)):
+        codes = [rng.randrange(len(src)) for _ in range(rng.choice([0, 1, 3, 7]))]
+        if rng.random() < 0.12:
+            codes.append(len(src) + rng.randint(0, 3))
+        ops.append(f"map {mk(src)} {mk(tgt)} {_ints(codes)}")
+    return {"kind": "mapper", "ops": ops}
+
+
+def _case_sequence(rng):
+    """stateful script on sequence registers"""
+    ops = []
+    regs = []   # (spec, length)  -- generator-side bookkeeping only (lengths approximate)
+    mode = rng.choice(["gen", "gen", "nuc", "prot"])
+    spec = _alph_spec(rng, small=True)
+
+    frozen = set()      # registers that share their code array with another one (slices are numpy views)
+
+    def new():
+        n = rng.choice([0, 1, 2, 4, 6, 9])
+        if mode == "nuc":
+            pool = rng.choice(["ACGT", "ACGT", "acgt", "ACGTRYWSMKHBVDN", "ACGTNnryk", "ACGU"])
+            txt = [rng.choice(pool) for _ in range(n)]
+            ops.append("s_nuc " + _ints(ord(c) for c in txt))
+            if all(c.upper() in "ACGTRYWSMKHBVDN" for c in txt):
+                regs.append((None, n))
+        elif mode == "prot":
+            pool = rng.choice(["ACDEFGHIKLMNPQRSTVWYBZX*", "acdefghik", "ACDEFJO"])
+            txt = [rng.choice(pool) for _ in range(n)]
+            ops.append("s_prot " + _ints(ord(c) for c in txt))
+            if all(c.upper() in AA for c in txt):
+                regs.append((None, n))
+        else:
+            sp = spec
+            if rng.random() < 0.25 and regs:      # an extension of the alphabet, for `+`
+                al = _spec_syms(spec)
+                extra = [t for t in ([str(p) for p in PRINTABLE] if spec.startswith("L:") else GEN_TOKENS) if t not in al]
+                sp = spec[:2] + _toks(al + rng.sample(extra, rng.randint(1, 3)))
+            syms = _rand_syms(rng, sp, n, rng.choice([0, 0, 0, 0.15]))
+            ops.append(f"s_new {sp} {_toks(syms)}")
+            if all(t in _spec_syms(sp) for t in syms):
+                regs.append((sp, n))
+
+    new()
+    for _ in range(rng.randint(4, 10)):
+        if not regs:
+            new()
+            continue
+        i = rng.randrange(len(regs))
+        sp, n = regs[i]
+        if mode == "nuc":
+            symtoks = [str(ord(c)) for c in "ACGTN"]
+        elif mode == "prot":
+            symtoks = [str(ord(c)) for c in "ACDW*X"]
+        else:
+            symtoks = _spec_syms(sp)
+        bad = (["33", "97"] if (mode != "gen" or sp.startswith("L:")) else ["sZZ"])
+        pick = lambda p_bad=0.1: rng.choice(bad) if rng.random() < p_bad else rng.choice(symtoks)   # noqa: E731
+        r = rng.random()
+        if r < 0.10:
+            new()
+        elif r < 0.20:
+            ops.append(f"s_str {i}")
+        elif r < 0.30:
+            ops.append(f"s_get {i} {rng.randint(-n - 2, n + 1)}")
+        elif r < 0.42:
+            if i in frozen:
+                continue
+            ops.append(f"s_set {i} {rng.randint(-n - 1, n)} {pick()}")
+        elif r < 0.52:
+            a = rng.choice(["-", str(rng.randint(-n - 2, n + 2))])
+            b = rng.choice(["-", str(rng.randint(-n - 2, n + 2))])
+            ops.append(f"s_slice {i} {a} {b}")
+            regs.append((sp, n))
+            frozen.update([i, len(regs) - 1])
+        elif r < 0.62:
+            if i in frozen:
+                continue
+            a = rng.randint(0, n)
+            b = rng.randint(a, n)
+            m = rng.choice([b - a, b - a, b - a, 1, b - a + 1, 0])
+            ops.append(f"s_setslice {i} {a} {b} {_toks(pick(0.05) for _ in range(m))}")
+        elif r < 0.72:
+            j = rng.randrange(len(regs))
+            ops.append(f"s_add {i} {j}")
+            regs.append((sp if len(_spec_syms(sp or '')) >= len(_spec_syms(regs[j][0] or '')) else regs[j][0], n + regs[j][1]))
+        elif r < 0.78:
+            ops.append(f"s_rev {i}")
+            regs.append((sp, n))
+        elif r < 0.84:
+            ops.append(f"s_eq {i} {rng.randrange(len(regs))}")
+        elif r < 0.90:
+            ops.append(f"s_copy {i}")
+            regs.append((sp, n))
+            if i not in frozen:
+                ops.append(f"s_set {i} 0 {pick(0)}")          # mutate the original, then look at the copy
+                ops.append(f"s_str {len(regs) - 1}")
+        elif r < 0.95 and mode == "nuc":
+            ops.append(f"s_compl {i}")
+            regs.append((sp, n))
+        else:
+            n_alph = 4 if mode == "nuc" else 24 if mode == "prot" else len(symtoks)
+            dt = rng.choice(["u8", "i64", "i64", "u16", "i32", "u64"])
+            m = rng.choice([0, 1, 3, 5])
+            if rng.random() < 0.4 and i not in frozen:
+                a = rng.randint(0, n)
+                b = rng.randint(a, n)
+                ops.append(f"s_setarr {i} {a} {b} {dt} {_ints(_rand_codes(rng, n_alph, rng.choice([b - a, b - a, 1]), dt, rng.choice([0, 0.3])))}")
+                ops.append(f"s_str {i}")
+                continue
+            ops.append(f"s_setcode {i} {dt} {_ints(_rand_codes(rng, n_alph, m, dt, rng.choice([0, 0.3])))}")
+            ops.append(f"s_str {i}")
+            ops.append(f"s_valid {i}")
+            regs[i] = (sp, m)
+    # the failed ops do not create registers on either side; later indices may then be out of range -> ERR:noreg on both sides
+    return {"kind": "sequence-" + mode, "ops": ops}
+
+
+def _case_add(rng):
+    """`+` between sequences whose alphabets extend each other (both orders) or are incompatible"""
+    small = _alph_spec(rng, small=True)
+    al = _spec_syms(small)
+    pool = [str(p) for p in PRINTABLE] if small.startswith("L:") else GEN_TOKENS
+    extra = rng.sample([t for t in pool if t not in al], rng.randint(1, 3))
+    big = small[:2] + _toks(al + extra)
+    other = small[:2] + _toks(extra + al)
+    ops = [f"s_new {small} {_toks(_rand_syms(rng, small, rng.randint(0, 5)))}",
+           f"s_new {big} {_toks(_rand_syms(rng, big, rng.randint(1, 5)))}",
+           f"s_new {other} {_toks(_rand_syms(rng, other, rng.randint(0, 3)))}"]
+    pairs = [(0, 1), (1, 0), (0, 0), (1, 1), (0, 2), (2, 1)]
+    rng.shuffle(pairs)
+    k = 3
+    for i, j in pairs[:4]:
+        ops.append(f"s_add {i} {j}")
+        if (i, j) in ((0, 1), (1, 0), (0, 0), (1, 1)):
+            ops += [f"s_str {k}", f"s_eq {k} {i}"]
+            k += 1
+    return {"kind": "sequence-add", "ops": ops}
+
+
+def _case_kmer(rng):
+    ops = []
+    n = rng.choice([1, 2, 3, 4, 4, 5, 15, 24, 94, 255, 256, 1000])
+    kmax = 6
+    while n ** kmax >= 2 ** 62:
+        kmax -= 1
+    k = rng.randint(2, kmax) if rng.random() < 0.95 else rng.choice([0, 1])
+    for _ in range(rng.randint(2, 5)):
+        r = rng.random()
+        if r < 0.3:
+            dt = rng.choice(["i64", "i64", "u8", "u64", "i32"]) if n <= 255 else rng.choice(["i64", "u64", "i32"])
+            if dt == "u64" and n ** max(k, 0) >= 2 ** 52:
+                dt = "i64"
+            m = k if rng.random() < 0.9 else max(0, k + rng.choice([-1, 1]))
+            codes = [rng.randrange(n) for _ in range(m)]
+            rr = rng.random()
+            if codes and rr < 0.12 and n <= DT_RANGE[dt][1]:
+                codes[rng.randrange(m)] = n                     # the boundary: code == len(alphabet)
+            elif codes and rr < 0.2 and n + 1 <= DT_RANGE[dt][1]:
+                codes[rng.randrange(m)] = n + rng.randint(1, 3)
+            elif codes and rr < 0.26 and dt[0] == "i":
+                codes[rng.randrange(m)] = -rng.randint(1, 3)
+            ops.append(f"k_fuse {n} {k} {dt} {_ints(codes)}")
+        elif r < 0.5:
+            top = n ** max(k, 0)
+            c = rng.choice([0, top - 1, top, top + 1, -1, rng.randrange(top), rng.randrange(top), rng.randrange(top)])
+            ops.append(f"k_split {n} {k} {c}")
+        else:
+            dts = [d for d in ("u8", "u16", "u32", "u64") if n - 1 <= DT_RANGE[d][1]]
+            dt = rng.choice(dts)
+            if rng.random() < 0.5:
+                sp = "-"
+                span = k
+            else:
+                span = max(k, 1) + rng.randint(0, 4)
+                pos = sorted(rng.sample(range(span), min(max(k, 0), span)))
+                if rng.random() < 0.1 and pos:
+                    pos[0] = rng.choice([-1, pos[-1]])            # negative / duplicate offsets
+                if rng.random() < 0.1:
+                    pos = pos[:-1]
+                if rng.random() < 0.5 and all(p >= 0 for p in pos) and len(set(pos)) == len(pos) and pos:
+                    sp = "m" + "".join("1" if j in pos else "0" for j in range(max(pos) + 1))
+                else:
+                    rng.shuffle(pos)
+                    sp = _ints(pos) if pos else "-"
+            L = rng.choice([0, 1, span - 1, span, span + 1, span + 3, span + 9])
+            codes = [rng.randrange(n) for _ in range(max(L, 0))]
+            bad = n + rng.choice([0, 0, 1])
+            if codes and rng.random() < 0.15 and bad <= DT_RANGE[dt][1]:
+                codes[rng.randrange(len(codes))] = bad
+            ops.append(f"k_kmers {n} {k} {sp} {dt} {_ints(codes)}")
+    if rng.random() < 0.5:
+        spec = "L:" + _ints(_letter_alph(rng, small=True)) if rng.random() < 0.7 else "G:" + _toks(rng.sample(GEN_TOKENS, rng.randint(1, 6)))
+        kk = rng.randint(2, 4)
+        nn = len(_spec_syms(spec))
+        ops.append(f"k_enc {spec} {kk} {_toks(_rand_syms(rng, spec, rng.choice([kk, kk, kk, kk - 1, kk + 1]), rng.choice([0, 0, 0.2])))}")
+        ops.append(f"k_dec {spec} {kk} {rng.choice([0, nn ** kk - 1, nn ** kk, -1, rng.randrange(nn ** kk)])}")
+    return {"kind": "kmer", "ops": ops}
+
+
+AA = "ACDEFGHIKLMNPQRSTVWYBZX*"
+TABLE_IDS = [1, 2, 3, 4, 5, 6, 9, 10, 11, 12, 13, 14, 16, 21, 22, 23, 24, 25, 26, 27, 28, 29, 30, 31]
+
+
+def _rand_dna(rng, n, starts, stops_bias=True):
+    out = []
+    while len(out) < n:
+        r = rng.random()
+        if r < 0.25 and starts:
+            out += list(rng.choice(starts))
+        elif r < 0.4:
+            out += list(rng.choice(["TAA", "TAG", "TGA"]))
+        else:
+            out.append(rng.choice("ACGT"))
+    return "".join(out[:n])
+
+
+def _case_codon(rng, table_id=None):
+    ops = []
+    r = rng.random()
+    starts = ["ATG"]
+    if table_id is not None or r < 0.4:
+        ops.append(f"c_load {table_id if table_id is not None else rng.choice(TABLE_IDS + [7, 0])}")
+        starts = ["ATG", "TTG", "CTG", "ATA", "GTG"]
+    elif r < 0.55:
+        ops.append("c_default")
+    else:
+        aa = [rng.choice(AA) for _ in range(64)]
+        for _ in range(rng.randint(1, 5)):
+            aa[rng.randrange(64)] = "*"
+        rr = rng.random()
+        if rr < 0.06:
+            aa = aa[:rng.randint(0, 63)]
+        elif rr < 0.12:
+            aa[rng.randrange(64)] = rng.choice("aJO1")
+        starts = [rng.choice(RADIX_CODONS) for _ in range(rng.choice([1, 1, 2, 3, 6]))]
+        st = list(starts)
+        rr = rng.random()
+        if rr < 0.05:
+            st = []
+        elif rr < 0.1:
+            st[0] = rng.choice(["AT", "ATGA", "AXG", "atg", "NNN"])
+        ops.append(f"c_tbl {''.join(aa) or '_'} {_toks(st)}")
+    for _ in range(rng.randint(2, 5)):
+        n = rng.choice([0, 1, 2, 3, 4, 5, 6, 9, 12, 17, 25, 33, 40])
+        dna = _rand_dna(rng, n, starts)
+        rr = rng.random()
+        if dna and rr < 0.06:
+            k = rng.randrange(len(dna))
+            dna = dna[:k] + rng.choice("NRYU-") + dna[k + 1:]
+        elif rr < 0.15:
+            dna = dna.lower()
+        complete = rng.random() < 0.4
+        if complete and rng.random() < 0.8:
+            dna = dna[:len(dna) - len(dna) % 3]
+        ops.append(f"c_tr {1 if complete else 0} {rng.choice([0, 1])} {dna or '_'}")
+    if rng.random() < 0.5:
+        ops.append(f"c_get {rng.choice(RADIX_CODONS)}")
+    return {"kind": "codon", "ops": ops}
+
+
+def cases(rng, tier):
+    scale = 1 if tier == "quick" else 12
+    plan = [(_case_alphabet, 110), (_case_bytes, 16), (_case_newalph, 12), (_case_mapper, 50),
+            (_case_sequence, 130), (_case_add, 30), (_case_kmer, 110), (_case_codon, 110)]
+    for fn, cnt in plan:
+        for _ in range(cnt * scale):
+            yield fn(rng)
+    if tier == "thorough":
+        # exhaustive: every byte value x every alphabet of size <= 4 over a fixed 4-letter pool (permutations)
+        import itertools
+        pool = [65, 67, 71, 84]
+        for size in range(1, 5):
+            for al in itertools.permutations(pool, size):
+                spec = "L:" + _ints(al)
+                yield {"kind": "bytes-exhaustive", "ops": [f"enc {spec} {_ints(range(0, 256))}"] +
+                       [f"enc1 {spec} {b}" for b in list(al) + [0, 255]] +
+                       [f"dec {spec} u8 {c}" for c in list(range(0, 8)) + [254, 255]] +
+                       [f"dec {spec} u16 {c}" for c in (256, 257, 260, 511, 512)]}
+        # all 64 codons x every shipped table
+        for tid in TABLE_IDS:
+            yield {"kind": "codon-exhaustive", "ops": [f"c_load {tid}"] + [f"c_get {c}" for c in RADIX_CODONS] +
+                   [f"c_tr 1 0 {''.join(RADIX_CODONS)}", f"c_tr 0 0 {''.join(RADIX_CODONS)}", f"c_tr 0 1 A{''.join(RADIX_CODONS)}"]}
+
+
+def corpus():
+    return [
+        {"kind": "alphabet", "ops": ["dec L:65,67,71,84 i64 256,1", "dec L:65,67,71,84 list 256,1", "dec L:65,67,71,84 i64 -256,1",
+                                     "dec L:65,67,71,84 u64 4294967296", "dec L:65,67,71,84 u8 0,3", "dec L:65,67,71,84 u8 4"]},
+        {"kind": "sequence-nuc", "ops": ["s_nuc 65,67,71,84", "s_setcode 0 i64 256,257", "s_str 0", "s_setcode 0 i64 3,4", "s_str 0", "s_valid 0"]},
+        {"kind": "sequence-nuc", "ops": ["s_nuc 65,67,71,84", "s_setarr 0 0 2 i64 258,259", "s_str 0", "s_setarr 0 0 2 u8 3,2", "s_str 0"]},
+        {"kind": "kmer", "ops": ["k_fuse 4 3 i64 3,3,3", "k_split 4 3 63", "k_kmers 4 3 - u8 0,1,2,3,3", "k_kmers 4 3 m1011 u8 0,1,2,3,3",
+                                 "k_kmers 4 3 3,0,2 u8 0,1,2,3,3"]},
+        {"kind": "codon", "ops": ["c_default", "c_tr 0 0 ATGAAATAGATGC", "c_tr 0 1 TTGAAATAGATGC", "c_tr 1 0 ATGAAATAG", "c_tr 1 0 ATGA", "c_load 11",
+                                  "c_tr 0 1 TTGAAATAGATGC", "c_tr 0 0 ATGATGTAA", "c_tr 0 0 _", "c_tr 0 0 AT"]},
+    ]
+
+
+# ---------------------------------------------------------------- property oracle (independent of the Lean model)
+# A reference interpreter written with plain Python list / str / dict semantics, straight from the property
+# statement.  For every op it returns what the property demands of the real code's canonical output line:
+#   ("eq", text)   the line must be exactly this          ("err", {names})  must be ERR:<one of names>
+#   ("anyerr",)    any error, but never an `ok`           None              the property says nothing
+IUPAC = {"A": "A", "C": "C", "G": "G", "T": "T", "R": "AG", "Y": "CT", "W": "AT", "S": "CG", "M": "AC", "K": "GT",
+         "H": "ACT", "B": "CGT", "V": "ACG", "D": "AGT", "N": "ACGT"}
+BASE_COMPL = {"A": "T", "C": "G", "G": "C", "T": "A"}
+NUC_UNAMB = "ACGT"
+NUC_AMB = "ACGTRYWSMKHBVDN"
+
+
+def iupac_complement(sym):
+    want = frozenset(BASE_COMPL[b] for b in IUPAC[sym])
+    hits = [s for s, bases in IUPAC.items() if frozenset(bases) == want]
+    assert len(hits) == 1
+    return hits[0]
+
+
+_TABLE_CACHE = {}
+
+
+def _file_tables():
+    """codon_tables.txt parsed with nothing but str.split (independent of CodonTable.load and of gen_lean)."""
+    from common import paths
+    path = os.path.join(paths.SRC, "biotite/sequence/codon_tables.txt")
+    key = (path, os.path.getmtime(path))
+    if key not in _TABLE_CACHE:
+        tabs = {}
+        for block in open(path).read().split("\n\n"):
+            rows = {}
+            for line in block.split("\n"):
+                parts = line.split()
+                if len(parts) >= 2 and parts[0] in ("id", "AA", "Init", "Base1", "Base2", "Base3"):
+                    rows[parts[0]] = parts[1]
+            if "id" in rows and all(k in rows for k in ("AA", "Init", "Base1", "Base2", "Base3")):
+                d = {}
+                starts = []
+                for i, a in enumerate(rows["AA"]):
+                    codon = rows["Base1"][i] + rows["Base2"][i] + rows["Base3"][i]
+                    d[codon] = a
+                    if rows["Init"][i] != "-":
+                        starts.append(codon)
+                tabs[int(rows["id"])] = (d, starts)
+        _TABLE_CACHE[key] = tabs
+    return _TABLE_CACHE[key]
+
+
+def _num(codon):
+    return 16 * "ACGT".index(codon[0]) + 4 * "ACGT".index(codon[1]) + "ACGT".index(codon[2])
+
+
+def _ref_table_line(d, starts):
+    return "ok " + "".join(d[c] for c in RADIX_CODONS) + " " + _ints(_num(c) for c in starts)
+
+
+def _ref_orfs(dna, d, starts, met):
+    out = []
+    for s in range(0, len(dna) - 2):
+        if dna[s:s + 3] in starts:
+            prot = ""
+            e = s
+            while e + 3 <= len(dna):
+                aa = d[dna[e:e + 3]]
+                prot += aa
+                e += 3
+                if aa == "*":
+                    break
+            if met:
+                prot = "M" + prot[1:]
+            out.append(f"{prot}@{s}-{e}")
+    return "ok " + (";".join(out) or "_")
+
+
+def _py_index(n, i):
+    if -n <= i < n:
+        return i % n if n else None
+    return None
+
+
+def reference(ops):
+    """-> list of expectations, one per op (see above)."""
+    exp = []
+    regs = []     # dict(kind, alph(list of tokens), syms(list of tokens) | None if poisoned)
+    table = [None]    # (dict, starts) | "unknown"
+
+    def alph_of(spec):
+        return spec.startswith("L:"), _ptoks(spec[2:])
+
+    for line in ops:
+        w = line.split()
+        op = w[0]
+        e = None
+        if op in ("enc", "enc1", "dec", "dec1"):
+            letter, al = alph_of(w[1])
+            distinct = len(set(al)) == len(al) and al
+            if not distinct:
+                e = None
+            elif op == "enc":
+                syms = _ptoks(w[2])
+                e = ("eq", "ok " + _ints(al.index(s) for s in syms)) if all(s in al for s in syms) else ("err", {"AlphabetError"})
+            elif op == "enc1":
+                e = ("eq", "ok " + str(al.index(w[2]))) if w[2] in al else ("err", {"AlphabetError"})
+            elif op == "dec":
+                codes = _pints(w[3])
+                e = ("eq", "ok " + _toks(al[c] for c in codes)) if all(0 <= c < len(al) for c in codes) else ("err", {"AlphabetError"})
+            else:
+                c = int(w[2])
+                e = ("eq", "ok " + al[c]) if 0 <= c < len(al) else ("err", {"AlphabetError"})
+        elif op == "newalph":
+            letter, al = alph_of(w[1])
+            if not al:
+                e = ("anyerr",)
+            elif not letter or all(33 <= int(t) <= 126 for t in al):
+                e = ("eq", "ok " + str(len(al)))
+            else:
+                e = ("anyerr",)
+        elif op == "extends":
+            _, a = alph_of(w[1])
+            _, b = alph_of(w[2])
+            e = ("eq", "ok " + ("true" if a[:len(b)] == b else "false"))
+        elif op == "map":
+            _, src = alph_of(w[1])
+            _, tgt = alph_of(w[2])
+            codes = _pints(w[3])
+            if not all(s in tgt for s in src):
+                e = ("anyerr",) if tgt[:len(src)] != src else None
+            elif all(0 <= c < len(src) for c in codes):
+                e = ("eq", "ok " + _ints(tgt.index(src[c]) for c in codes))      # the symbols are preserved
+            else:
+                e = None
+        elif op == "s_new":
+            letter, al = alph_of(w[1])
+            syms = _ptoks(w[2])
+            if all(s in al for s in syms):
+                regs.append({"kind": 0, "alph": al, "syms": list(syms)})
+                e = ("eq", "ok " + _toks(syms))
+            else:
+                e = ("err", {"AlphabetError"})
+        elif op in ("s_nuc", "s_prot"):
+            txt = "".join(chr(int(t)) for t in _ptoks(w[1])).upper()
+            if op == "s_nuc":
+                al = NUC_UNAMB if all(c in NUC_UNAMB for c in txt) else NUC_AMB if all(c in NUC_AMB for c in txt) else None
+            else:
+                al = AA if all(c in AA for c in txt) else None
+            if al is None:
+                e = ("err", {"AlphabetError"})
+            else:
+                toks = [str(ord(c)) for c in txt]
+                regs.append({"kind": 1 if op == "s_nuc" else 2, "alph": [str(ord(c)) for c in al], "syms": toks})
+                e = ("eq", "ok " + (f"{len(al)} " if op == "s_nuc" else "") + _toks(toks))
+        elif op.startswith("s_"):
+            idx = [int(w[1])] + ([int(w[2])] if op in ("s_add", "s_eq") else [])
+            if any(i >= len(regs) for i in idx):
+                exp.append(("eq", "ERR:noreg"))
+                continue
+            r = regs[idx[0]]
+            poisoned = r["syms"] is None or (len(idx) > 1 and regs[idx[1]]["syms"] is None)
+            if op == "s_setcode":
+                codes = _pints(w[3])
+                if all(0 <= c < len(r["alph"]) for c in codes):
+                    r["syms"] = [r["alph"][c] for c in codes]
+                    e = ("eq", "ok " + _toks(r["syms"]))
+                else:
+                    # rejected now, or kept as an invalid code that must raise when symbols are requested
+                    e = ("oneof", {"ERR:AlphabetError", "ok !AlphabetError"})
+                    r["syms"] = None
+                    r["maybe_unchanged"] = True
+            elif op == "s_setarr" and not poisoned:
+                lo = None if w[2] == "-" else int(w[2])
+                hi = None if w[3] == "-" else int(w[3])
+                codes = _pints(w[5])
+                width = len(r["syms"][lo:hi])
+                if all(0 <= c < len(r["alph"]) for c in codes) and len(codes) == width:
+                    r["syms"][lo:hi] = [r["alph"][c] for c in codes]
+                    e = ("eq", "ok " + _toks(r["syms"]))
+                elif all(0 <= c < len(r["alph"]) for c in codes):
+                    e = None
+                    r["syms"] = None
+                    r["maybe_unchanged"] = True
+                else:
+                    # never an `ok <symbols>`: the invalid code must not turn into a symbol
+                    allowed = {"ERR:AlphabetError", "ERR:ValueError", "ok !AlphabetError"}
+                    if width == 0:
+                        allowed.add("ok " + _toks(r["syms"]))      # nothing is written into an empty slice
+                    e = ("oneof", allowed)
+                    if width:
+                        r["syms"] = None
+                        r["maybe_unchanged"] = True
+            elif poisoned:
+                if op == "s_str":
+                    e = None if r.get("maybe_unchanged") else ("err", {"AlphabetError"})
+                elif op in ("s_slice", "s_rev", "s_copy", "s_compl", "s_add"):
+                    regs.append({"kind": r["kind"], "alph": r["alph"], "syms": None, "maybe_unchanged": True})
+                e = e
+            elif op == "s_str":
+                e = ("eq", "ok " + _toks(r["syms"]))
+            elif op == "s_code":
+                e = ("eq", "ok " + _ints(r["alph"].index(s) for s in r["syms"]))
+            elif op == "s_valid":
+                e = ("eq", "ok true")
+            elif op == "s_get":
+                k = _py_index(len(r["syms"]), int(w[2]))
+                e = ("eq", "ok " + r["syms"][k]) if k is not None else ("err", {"IndexError"})
+            elif op == "s_set":
+                k = _py_index(len(r["syms"]), int(w[2]))
+                if w[3] not in r["alph"]:
+                    e = ("err", {"AlphabetError"} | ({"IndexError"} if k is None else set()))
+                elif k is None:
+                    e = ("err", {"IndexError"})
+                else:
+                    r["syms"][k] = w[3]
+                    e = ("eq", "ok " + _toks(r["syms"]))
+            elif op == "s_slice":
+                lo = None if w[2] == "-" else int(w[2])
+                hi = None if w[3] == "-" else int(w[3])
+                new = r["syms"][lo:hi]
+                regs.append({"kind": r["kind"], "alph": r["alph"], "syms": list(new)})
+                e = ("eq", "ok " + _toks(new))
+            elif op == "s_setslice":
+                lo = None if w[2] == "-" else int(w[2])
+                hi = None if w[3] == "-" else int(w[3])
+                syms = _ptoks(w[4])
+                width = len(r["syms"][lo:hi])
+                if not all(s in r["alph"] for s in syms):
+                    e = ("err", {"AlphabetError"})
+                elif len(syms) == width:
+                    r["syms"][lo:hi] = syms
+                    e = ("eq", "ok " + _toks(r["syms"]))
+                elif len(syms) == 1:
+                    # numpy broadcast of one symbol, or a refusal; never anything else
+                    cand = list(r["syms"])
+                    cand[lo:hi] = syms * width
+                    e = ("oneof", {"ok " + _toks(cand), "ERR:ValueError"})
+                    r["syms"] = None
+                    r["maybe_unchanged"] = True
+                else:
+                    e = ("err", {"ValueError"})
+            elif op == "s_add":
+                o = regs[idx[1]]
+                a, b = r["alph"], o["alph"]
+                if a[:len(b)] == b or b[:len(a)] == a:
+                    big = r if a[:len(b)] == b else o
+                    new = r["syms"] + o["syms"]
+                    regs.append({"kind": big["kind"], "alph": big["alph"], "syms": new})
+                    e = ("eq", f"ok {big['kind']} {len(big['alph'])} {_toks(new)}")
+                else:
+                    e = ("err", {"ValueError"})
+            elif op == "s_rev":
+                new = r["syms"][::-1]
+                regs.append({"kind": r["kind"], "alph": r["alph"], "syms": new})
+                e = ("eq", "ok " + _toks(new))
+            elif op == "s_copy":
+                regs.append({"kind": r["kind"], "alph": r["alph"], "syms": list(r["syms"])})
+                e = ("eq", "ok " + _toks(r["syms"]))
+            elif op == "s_eq":
+                o = regs[idx[1]]
+                e = ("eq", "ok " + ("true" if (r["kind"], r["alph"], r["syms"]) == (o["kind"], o["alph"], o["syms"]) else "false"))
+            elif op == "s_compl":
+                new = [str(ord(iupac_complement(chr(int(t))))) for t in r["syms"]]
+                regs.append({"kind": r["kind"], "alph": r["alph"], "syms": new})
+                e = ("eq", "ok " + _toks(new))
+        elif op == "k_fuse":
+            n, k, codes = int(w[1]), int(w[2]), _pints(w[4])
+            if k < 2:
+                e = ("anyerr",)
+            elif len(codes) == k and all(0 <= c < n for c in codes):
+                e = ("eq", "ok " + str(sum(c * n ** (k - 1 - j) for j, c in enumerate(codes))))
+            else:
+                e = ("err", {"AlphabetError"})
+        elif op == "k_split":
+            n, k, c = int(w[1]), int(w[2]), int(w[3])
+            if k < 2:
+                e = ("anyerr",)
+            elif 0 <= c < n ** k:
+                ds = []
+                for _ in range(k):
+                    c, d = divmod(c, n)
+                    ds.append(d)
+                e = ("eq", "ok " + _ints(reversed(ds)))
+            else:
+                e = ("err", {"AlphabetError"})
+        elif op == "k_kmers":
+            n, k, codes = int(w[1]), int(w[2]), _pints(w[5])
+            if w[3] == "-":
+                offs = list(range(max(k, 0)))
+            elif w[3][0] == "m":
+                offs = [j for j, ch in enumerate(w[3][1:]) if ch == "1"]
+            else:
+                offs = sorted(_pints(w[3]))
+            if k < 2 or len(offs) != k or len(set(offs)) != k or any(o < 0 for o in offs):
+                e = ("anyerr",)
+            elif len(codes) < offs[-1] + 1:
+                e = ("err", {"ValueError"})
+            else:
+                n_k = len(codes) - offs[-1]
+                read = {i + o for i in range(n_k) for o in offs}
+                if all(codes[p] < n for p in read):
+                    e = ("eq", "ok " + _ints(sum(codes[i + o] * n ** (k - 1 - j) for j, o in enumerate(offs)) for i in range(n_k)))
+                else:
+                    e = ("err", {"AlphabetError"})
+        elif op == "k_enc":
+            _, al = alph_of(w[1])
+            k, syms = int(w[2]), _ptoks(w[3])
+            if len(syms) == k and all(s in al for s in syms):
+                e = ("eq", "ok " + str(sum(al.index(s) * len(al) ** (k - 1 - j) for j, s in enumerate(syms))))
+            else:
+                e = ("err", {"AlphabetError"})
+        elif op == "k_dec":
+            _, al = alph_of(w[1])
+            k, c = int(w[2]), int(w[3])
+            if 0 <= c < len(al) ** k:
+                ds = []
+                for _ in range(k):
+                    c, d = divmod(c, len(al))
+                    ds.append(al[d])
+                e = ("eq", "ok " + _toks(reversed(ds)))
+            else:
+                e = ("err", {"AlphabetError"})
+        elif op == "c_tbl":
+            aa = "" if w[1] == "_" else w[1]
+            starts = [] if w[2] == "_" else w[2].split(",")
+            okk = len(aa) == 64 and all(a in AA for a in aa) and starts and all(len(s) == 3 and all(b in "ACGT" for b in s) for s in starts)
+            if okk:
+                d = {RADIX_CODONS[i]: aa[i] for i in range(64)}
+                table[0] = (d, starts)
+                e = ("eq", _ref_table_line(d, starts))
+            else:
+                table[0] = None
+                # a table without start codons is refused by the constructor (numpy broadcast): not a property matter
+                e = ("anyerr",) if (len(aa) != 64 or not all(a in AA for a in aa) or any(len(s) != 3 or any(b not in "ACGT" for b in s) for s in starts)) else None
+                if e is None:
+                    table[0] = "unknown"
+        elif op == "c_load":
+            t = _file_tables().get(int(w[1]))
+            if t is None:
+                table[0] = None
+                e = ("anyerr",)
+            else:
+                table[0] = t
+                e = ("eq", _ref_table_line(*t))
+        elif op == "c_default":
+            d, _ = _file_tables()[1]
+            table[0] = (d, ["ATG"])
+            e = ("eq", _ref_table_line(d, ["ATG"]))
+        elif op in ("c_tr", "c_get"):
+            if table[0] is None:
+                e = ("eq", "ERR:notable")
+            elif table[0] == "unknown":
+                e = None
+            elif op == "c_get":
+                e = ("eq", "ok " + table[0][0][w[1]])
+            else:
+                d, starts = table[0]
+                dna = ("" if w[3] == "_" else w[3]).upper()
+                if not all(b in NUC_AMB for b in dna):
+                    e = ("err", {"AlphabetError"})
+                elif not all(b in "ACGT" for b in dna):
+                    e = ("err", {"AlphabetError"})
+                elif w[1] == "1":
+                    if len(dna) % 3:
+                        e = ("err", {"ValueError"})
+                    else:
+                        e = ("eq", "ok " + ("".join(d[dna[i:i + 3]] for i in range(0, len(dna), 3)) or "_"))
+                else:
+                    e = ("eq", _ref_orfs(dna, d, starts, w[2] == "1"))
+        exp.append(e)
+    return exp
+
+
+def _classify(op, line, got):
+    """Finding key: the specific failing input class."""
+    w = op.split()
+    if w[0] == "k_fuse" and got.startswith("ok"):
+        n, k, codes = int(w[1]), int(w[2]), _pints(w[4])
+        if len(codes) == k and any(c == n for c in codes) and not any(c > n or c < 0 for c in codes):
+            return "C03/KmerAlphabet.fuse/code-equal-to-alphabet-length"
+        if len(codes) == k and any(c < 0 for c in codes) and not any(c >= n for c in codes):
+            return "C03/KmerAlphabet.fuse/negative-code"
+        if w[3] == "u64" and all(0 <= c < n for c in codes):
+            return "C03/KmerAlphabet.fuse/uint64-codes-computed-in-float64"
+        return "C03/k_fuse/wrong-result"
+    if w[0] == "dec" and got.startswith("ok"):
+        _, al = w[1].startswith("L:"), _ptoks(w[1][2:])
+        if any(c >= 256 or c < 0 for c in _pints(w[3])):
+            return "C03/decode_multiple/code-outside-uint8-wraps"
+    if w[0] == "s_setcode" and got.startswith("ok") and not got.startswith("ok !"):
+        return "C03/Sequence.code/code-outside-dtype-wraps"
+    if w[0] == "s_setarr" and got.startswith("ok") and not got.startswith("ok !"):
+        return "C03/Sequence.__setitem__/code-outside-dtype-wraps"
+    wants_error = bool(line) and line[0] in ("err", "anyerr")
+    return f"C03/{w[0]}/" + ("accepted-invalid-input" if got.startswith("ok") and wants_error
+                             else "wrong-error" if got.startswith("ERR") and wants_error else "wrong-result")
+
+
+def oracle(case):
+    ops = case.get("ops") or case.get("check_ops") or []
+    if not ops:
+        return []
+    got = run_impl({"ops": ops})
+    exp = reference(ops)
+    v = []
+    for op, g, e in zip(ops, got, exp):
+        if e is None:
+            continue
+        ok = True
+        if e[0] == "eq":
+            ok = g == e[1]
+        elif e[0] == "err":
+            ok = g.startswith("ERR:") and g[4:] in e[1]
+        elif e[0] == "anyerr":
+            ok = g.startswith("ERR:")
+        elif e[0] == "oneof":
+            ok = g in e[1]
+        if not ok:
+            want = e[1] if len(e) > 1 else "an error"
+            v.append((_classify(op, e, g), f"op `{op[:160]}`: real code gives `{g[:120]}`, property demands {str(want)[:160]}"))
+    return v
+
+
+def nontrivial(case, impl_out):
+    if not impl_out:
+        return False
+    return any((o.startswith("ok ") and o not in ("ok _", "ok true", "ok false")) or o.startswith("ERR:") and "noreg" not in o and "notable" not in o
+               for o in impl_out)
+
+
+def signature(case):
+    return "|".join(case.get("ops") or case.get("check_ops") or [])
+
+
+def distribution(cases, impl_outs):
+    ops = {}
+    outcomes = {}
+    lens = {}
+    for c, o in zip(cases, impl_outs):
+        for line, res in zip(c.get("ops") or [], o or []):
+            k = line.split(" ")[0]
+            ops[k] = ops.get(k, 0) + 1
+            r = res.split(" ")[0]
+            outcomes[r] = outcomes.get(r, 0) + 1
+        n = len(c.get("ops") or [])
+        b = "1-3" if n <= 3 else "4-7" if n <= 7 else "8+"
+        lens[b] = lens.get(b, 0) + 1
+    return {"ops": ops, "outcomes": outcomes, "script_lengths": lens}
+
+
+def shrink(case, key):
+    from common import util
+    field = "ops" if case.get("ops") else "check_ops"
+
+    def fails(ops):
+        try:
+            return any(k == key for k, _ in oracle({field: ops}))
+        except Exception:  # noqa: BLE001
+            return False
+    ops = util.shrink_list(case[field], fails, max_steps=120)
+    return dict(case, **{field: ops})
+
+
+def search(rng, problems, tier):
+    """Failing-input search: targeted at what broke, then the generator again with another stream."""
+    names = " ".join(str(p.get("name", "")) + " " + str(p.get("kind", "")) + " " + str(p.get("detail", ""))[:300] for p in problems)
+    if "codon" in names.lower() or "Gen" in names or "gen" in names:
+        for tid in TABLE_IDS:
+            yield {"kind": "codon-exhaustive", "check_ops": [f"c_load {tid}"] + [f"c_get {c}" for c in RADIX_CODONS] +
+                   [f"c_tr 1 0 {''.join(RADIX_CODONS)}", f"c_tr 0 0 {''.join(RADIX_CODONS)}"]}
+        yield {"kind": "codon-exhaustive", "check_ops": ["c_default", f"c_tr 0 0 {''.join(RADIX_CODONS)}"]}
+        for s in NUC_AMB + NUC_AMB.lower():
+            yield {"kind": "sequence-nuc", "check_ops": [f"s_nuc {ord(s)},65", "s_compl 0", "s_compl 1", "s_str 2", "s_rev 0"]}
+        for a in AA:
+            yield {"kind": "sequence-prot", "check_ops": [f"s_prot {ord(a)}", "s_str 0", "s_code 0"]}
+    for c in cases(rng, "quick"):
+        yield dict({k: v for k, v in c.items() if k != "ops"}, check_ops=c["ops"])
+    if tier == "thorough":
+        for c in cases(rng, "quick"):
+            yield dict({k: v for k, v in c.items() if k != "ops"}, check_ops=c["ops"])
